@@ -26,7 +26,7 @@ DEFAULTS = {
     "nested": "[[1], {'a': (2, [3])}]",
 }
 ANN = {"list": "List[int]", "dictlist": "Dict[str, List[int]]", "tuplemix": "Tuple[List[int], Dict[str, int]]",
-       "set": "Set[int]", "nested": "list", "factory": "List[int]", "plainlist": "list"}
+       "set": "Set[int]", "nested": "list", "factory": "List[int]", "plainlist": "list", "sharedfactory": "List[int]"}
 HEADER = ("import utype\nfrom utype import Schema, DataClass, Field, Options\n"
           "from typing import List, Dict, Tuple, Set, Generator\n")
 
@@ -34,17 +34,24 @@ HEADER = ("import utype\nfrom utype import Schema, DataClass, Field, Options\n"
 def decl_source(d):
     """d = {kind: schema|dataclass|func|gen, fields: [(name, defkind, how)]} -> python source defining `T`"""
     lines = [HEADER]
+    # a factory that hands out one and the same object on every call (a settings getter, a bound method of a registry, ...)
+    for name, dk, how in d["fields"]:
+        if dk == "sharedfactory":
+            lines.append("SHARED_%s = [1, 2]" % name)
     if d["kind"] in ("schema", "dataclass"):
         lines.append("class T(%s):" % ("Schema" if d["kind"] == "schema" else "DataClass"))
         for name, dk, how in d["fields"]:
             if dk == "factory":
                 lines.append("    %s: %s = Field(default_factory=list)" % (name, ANN[dk]))
+            elif dk == "sharedfactory":
+                lines.append("    %s: %s = Field(default_factory=lambda: SHARED_%s)" % (name, ANN[dk], name))
             elif how == "field":
                 lines.append("    %s: %s = Field(default=%s)" % (name, ANN[dk], DEFAULTS[dk]))
             else:
                 lines.append("    %s: %s = %s" % (name, ANN[dk], DEFAULTS[dk]))
     else:
-        params = ", ".join("%s: %s = %s" % (n, ANN[dk], DEFAULTS[dk]) for n, dk, how in d["fields"])
+        params = ", ".join("%s: %s = %s" % (n, ANN[dk], ("utype.Param(default_factory=lambda: SHARED_%s)" % n) if dk == "sharedfactory"
+                                            else DEFAULTS[dk]) for n, dk, how in d["fields"])
         names = ", ".join(n for n, _, _ in d["fields"])
         if d["kind"] == "func":
             lines += ["@utype.parse", "def T(%s):" % params, "    return {%s}" % ", ".join("'%s': %s" % (n, n) for n, _, _ in d["fields"])]
@@ -57,6 +64,7 @@ def decl_source(d):
 def build(d):
     ns = {}
     exec(compile(decl_source(d), "c19decl", "exec"), ns)
+    build.ns = ns
     return ns["T"]
 
 
@@ -66,13 +74,13 @@ def class_defaults(d, T):
     if d["kind"] in ("schema", "dataclass"):
         for name, dk, how in d["fields"]:
             f = T.__parser__.fields[name]
-            out.append(None if dk == "factory" else f.field.default)
+            out.append(None if dk == "factory" else build.ns["SHARED_%s" % name] if dk == "sharedfactory" else f.field.default)
     else:
         import inspect
         raw = getattr(T, "__wrapped__", None)
         sig = inspect.signature(raw or T)
         for name, dk, how in d["fields"]:
-            out.append(sig.parameters[name].default)
+            out.append(build.ns["SHARED_%s" % name] if dk == "sharedfactory" else sig.parameters[name].default)
     return out
 
 
@@ -164,10 +172,11 @@ PROVIDE = {
     "set": [lambda: {"7", 8}, lambda: [9, 9]],
     "nested": [lambda: [[7], {"z": (1, [2])}]],
     "factory": [lambda: ["6"], lambda: [6, 7]],
+    "sharedfactory": [lambda: ["6"], lambda: [6, 7]],
     "plainlist": [lambda: [1, [2]]],
 }
 INVALID = {"list": lambda: ["x"], "dictlist": lambda: {"a": ["x"]}, "tuplemix": lambda: (["x"], {}), "set": lambda: {"x"},
-           "factory": lambda: ["x"], "nested": lambda: 5j, "plainlist": lambda: 5j}
+           "factory": lambda: ["x"], "sharedfactory": lambda: ["x"], "nested": lambda: 5j, "plainlist": lambda: 5j}
 
 
 def mutate(val, rng):
@@ -271,7 +280,7 @@ def main():
         raise MachineryError("P_NoAlias not falsified when copy_value shares tuples: property layer is vacuous")
     ck.count("tuple_sharing_variant_refuted_by_TLC")
     kinds = ["schema", "dataclass", "func", "gen"]
-    defkinds = ["list", "dictlist", "tuplemix", "set", "nested", "factory", "plainlist"]
+    defkinds = ["list", "dictlist", "tuplemix", "set", "nested", "factory", "sharedfactory", "plainlist"]
     decls = []
     for k in kinds:
         for dk in defkinds:
@@ -279,7 +288,7 @@ def main():
                 continue
             if dk == "plainlist":
                 continue
-            for how in (("plain", "field") if k in ("schema", "dataclass") and dk != "factory" else ("plain",)):
+            for how in (("plain", "field") if k in ("schema", "dataclass") and dk not in ("factory", "sharedfactory") else ("plain",)):
                 decls.append({"kind": k, "fields": [("a", dk, how)]})
         decls.append({"kind": k, "fields": [("a", "list", "plain"), ("b", "dictlist", "plain"), ("c", "tuplemix", "plain")]})
         decls.append({"kind": k, "fields": [("a", "nested", "plain"), ("b", "set", "plain")]})
@@ -335,7 +344,7 @@ def main():
         ck.violation(key, t[2], {"decl": d, "source": decl_source(d), "events": rec["events"][:t[3]], "failing_event": t[3]})
     ck.rule = ("histories of calls (arguments omitted / provided / partly provided / invalid) and mutations of returned containers "
                "on Schema, DataClass, @parse functions and @parse generator functions with list / dict-of-list / tuple-of-"
-               "containers / set / nested / default_factory defaults (plain and Field(default=)): 4 fixed scripts per "
+               "containers / set / nested / default_factory (fresh object, or the same object every time) defaults (plain and Field(default=)): 4 fixed scripts per "
                "declaration plus seeded random scripts; every call is also made alone in a freshly forked process; "
                "distinct_nontrivial = distinct (declaration, event kind, mode, verdict)")
     ck.trusted = ["TLC 1.8", "harness/drivers/c19.py: canonical projection, id()-based identities of reachable list/set/dict objects, fork-per-call twin"]
